@@ -77,6 +77,10 @@ def build(only_at=None):
     fill(item, sens("items[]"))
     fill(item.inner, sens("items[].inner"))
     s.items = cc.ListField(item)
+    if only_at is None:
+        si = cc.Schema()
+        si.name = cc.StringField()
+        s.sec_cfgs = cc.ListField(si, sensitive=True)     # the list itself is the sensitive value
     if only_at == "t":
         tp = cc.Schema(); fill(tp, False)
         s.ts = cc.ListField(cc.make_type(tp, "CT10plain2"))
@@ -104,6 +108,8 @@ def populate(cfg, vals_at):
     tree["t"] = node_tree(vals_at["t"])
     tree["items"] = [node_tree(vals_at["items[]"], with_inner=vals_at["items[].inner"]), node_tree(vals_at["items[]"], with_inner=vals_at["items[].inner"])]
     tree["ts"] = [node_tree(vals_at["ts[]"])]
+    if "sec_cfgs" in cfg._schema._fields and vals_at["root"].get("sec_s"):
+        tree["sec_cfgs"] = [{"name": "CFGLISTSECRET-a"}, {"name": "CFGLISTSECRET-b"}]
     cfg.load_tree(tree)
 
 
@@ -206,6 +212,13 @@ def _check_render(ctx, job, cfg, vals_at, mask, key, virtual, bad):
         for k in list(pnode):
             if isinstance(pnode[k], dict) and k in ("sub", "deep", "inner", "t") or k in ("items", "ts"):
                 continue
+            if k == "sec_cfgs":
+                value = getattr(cnode, k)
+                if mask is not None and value:
+                    want = mask * len(str(value)) if len(mask) == 1 else mask
+                    if mnode.get(k) != want:
+                        bad("not-masked%s|%s|sec_cfgs" % (vtag, pos), "the sensitive list of configurations is rendered as %s" % V.show(mnode.get(k), 60))
+                continue
             if (k in SENSITIVE or k == "sec_v") and mask is not None:
                 value = getattr(cnode, k)
                 if not value:
@@ -224,6 +237,8 @@ def _check_render(ctx, job, cfg, vals_at, mask, key, virtual, bad):
     secrets = sorted({d for p in vals_at.values() for k, v in p.items() for d in distinctive(v)})
     if virtual and any(p.get("sec_s") for p in vals_at.values()):
         secrets.append("VIRTSECRET-zz")
+    if vals_at["root"].get("sec_s") and "sec_cfgs" in cfg._schema._fields:
+        secrets.append("CFGLISTSECRET-a")
     if virtual:
         for (pos, mnode) in nodes(masked, True):
             if "pub_v" not in mnode or mnode["pub_v"] != "PUBVIRT-visible":
